@@ -2,7 +2,7 @@
    Only ExtrOcamlBasic is used: N / Z / positive / nat stay the extracted inductive
    datatypes (no Extract Constant to OCaml int). *)
 From Coq Require Import Extraction ExtrOcamlBasic.
-From StgV Require Import Model.Chars Model.Name Model.NameSpec Model.Locator.
+From StgV Require Import Model.Chars Model.Name Model.NameSpec Model.Locator Model.Stack Model.Cmd.
 
 Extraction Language OCaml.
 Extraction "../ocaml/model.ml"
@@ -11,4 +11,5 @@ Extraction "../ocaml/model.ml"
   NameSpec.check_table NameSpec.git_component_ok NameSpec.clean
   Locator.parse_locator Locator.parse_range Locator.offsets_full Locator.offset_atoms
   Locator.display_loc Locator.display_range Locator.resolve_name Locator.resolve_names
-  Locator.resolve_names_contiguous Locator.dec_of_Z.
+  Locator.resolve_names_contiguous Locator.dec_of_Z
+  Cmd.step Cmd.init_world Stack.cur_state.
